@@ -26,14 +26,22 @@ declare -A MAP=(
  ["0-bit precision also for input-connected"]="C05"
  ["not in ascending order"]="C20"
  ["despite float rounding"]="C20"
+ ["shapes of its own call site"]="C06"
+ ["concatenated into a network output"]="C08"
+ ["meets the requested counts"]="C20"
 )
 fail=0
 git -C /repo log --format='%h %s' bfd6014..HEAD | grep ' fix:' | while read h msg; do
   prop=""
   for k in "${!MAP[@]}"; do case "$msg" in *"$k"*) prop=${MAP[$k]};; esac; done
   [ -z "$prop" ] && { echo "NO-MAP $h $msg"; continue; }
-  git -C /repo diff $h $h~1 > /tmp/vf_revert_$h.diff
-  res=$(python3 tools/eval_mutation.py /tmp/vf_revert_$h.diff $prop 2>&1 | grep -E "CAUGHT-BY|DOES NOT APPLY")
+  if [ -f tools/manual_reverts/$h.diff ]; then
+    # a later fix: commit changed the same lines: hand-made revert of this fix on the current tree
+    cp tools/manual_reverts/$h.diff /tmp/vf_revert_$h.diff; msg="$msg [hand-made revert]"
+  else
+    git -C /repo diff $h $h~1 > /tmp/vf_revert_$h.diff
+  fi
+  res=$(python3 tools/eval_mutation.py /tmp/vf_revert_$h.diff $prop --partial 2>&1 | grep -E "CAUGHT-BY|DOES NOT APPLY|PARTIALLY" | tr '\n' ' ')
   echo "$h revert -> $prop : $res  ($msg)"
   rm -f /tmp/vf_revert_$h.diff
 done
